@@ -6,9 +6,23 @@
   top-level result has a severity not waived by allow_infos / allow_warnings; with neither option,
   exactly when there is any result.  The agreement of the three renderings of the verdict
   (sh:conforms literal, "Conforms:" line, result count = number of sh:result links) and the
-  well-formedness of each result node are checked on the real return triple by the harness (B).
+  well-formedness of each result node are proved over the model of the report assembly
+  (`PyshaclModel/Report.lean`: create_validation_report, make_v_result, clone_blank_node), for every
+  verdict and every list of (nested) results; the same facts are checked on the real return triple by
+  the harness (B), and the model's report graph is compared with the real one up to blank-node labels (A).
+
+  Two things are hypotheses or left to the comparison, and why:
+  * `single_report_node` needs "no copied description says `rdf:type sh:ValidationReport`": a blank focus or
+    value node of the data graph that is itself typed sh:ValidationReport is copied with its description,
+    which the property also demands; the two demands meet only in that corner.
+  * `blank_node_description_copied` is for blank nodes that are not rdf:List nodes; a list node is rebuilt
+    member by member (`clone_list`), which is modelled and compared but not restated as a theorem — except that
+    the statements about it besides rdf:first / rdf:rest are copied like anyone else's
+    (`blank_node_statements_copied`; the code dropped them until fix a592404).
+  That the reported terms are terms of the validated graphs is checked on the real report only.
 -/
 import PyshaclProofs.EvalLemmas
+import PyshaclProofs.ReportProofs
 namespace Pyshacl.C06
 open Pyshacl
 
@@ -35,6 +49,229 @@ theorem nonconforming_has_result (o : Opts) (sg dg : Graph) (rx : Regex) (focus 
   have := runValidate_verdict o sg dg rx focus false rs h
   intro hn; subst hn; simp [allWaived] at this
 
+/-! ### the report graph and the report text -/
+
+/-- the verdict, the `sh:conforms` literal and the "Conforms:" line are the same boolean; the text's result
+    count is the number of results, which is the number of `sh:result` links (`result_links`) -/
+theorem three_renderings_agree (sg dg : Graph) (desc : Result → String) (conf : Bool) (rs : List Result)
+    (b : Bool) (g : List RTriple) (text : String) (h : createReport sg dg desc conf rs = .ok (b, g, text)) :
+    b = conf ∧ (∀ o, (⟨.fresh [], shConforms, o⟩ : RTriple) ∈ g ↔ o = .term (boolLit conf)) ∧
+    text = "Validation Report\nConforms: " ++ (if conf then "True" else "False") ++ "\n"
+      ++ (if rs.length > 0 then "Results (" ++ toString rs.length ++ "):\n" else "") ++ String.join (rs.map desc) := by
+  unfold createReport at h
+  split at h
+  · simp at h
+  · injection h with h; injection h with h1 h2; injection h2 with h2 h3
+    subst h1 h2 h3
+    refine ⟨rfl, fun o => ?_, rfl⟩
+    rw [mem_reportGraph_root]
+    constructor
+    · rintro (⟨h, _⟩ | ⟨_, h⟩ | ⟨h, _⟩)
+      · exact absurd h (by decide)
+      · exact h
+      · exact absurd h (by decide)
+    · intro h; exact Or.inr (Or.inl ⟨rfl, h⟩)
+
+/-- a non-conforming verdict is never reported without a result: the assembly refuses it -/
+theorem nonconforming_report_has_result (sg dg : Graph) (desc : Result → String) (rs : List Result)
+    (g : List RTriple) (text : String) (h : createReport sg dg desc false rs = .ok (false, g, text)) : rs ≠ [] := by
+  unfold createReport at h
+  intro hn; subst hn; simp at h
+
+/-- the `sh:result` links of the report node: one per result, pairwise distinct -/
+theorem result_links (sg dg : Graph) (conf : Bool) (rs : List Result) (o : RNode) :
+    (⟨.fresh [], shResult, o⟩ : RTriple) ∈ reportGraph sg dg conf rs ↔ ∃ i, i < rs.length ∧ o = .fresh [i] := by
+  rw [mem_reportGraph_root]
+  constructor
+  · rintro (⟨h, _⟩ | ⟨h, _⟩ | ⟨_, h⟩)
+    · exact absurd h (by decide)
+    · exact absurd h (by decide)
+    · exact h
+  · intro h; exact Or.inr (Or.inr ⟨rfl, h⟩)
+
+theorem result_links_distinct (i j : Nat) (h : RNode.fresh [i] = RNode.fresh [j]) : i = j := by
+  injection h with h; injection h
+
+/-- exactly one node is typed sh:ValidationReport — provided no copied description says so too -/
+theorem single_report_node (sg dg : Graph) (conf : Bool) (rs : List Result)
+    (hc : ∀ t ∈ clones sg dg (resultsPending dg 0 rs), ¬ (t.p = rdfType ∧ t.o = .term shValidationReport)) (n : RNode) :
+    (⟨n, rdfType, .term shValidationReport⟩ : RTriple) ∈ reportGraph sg dg conf rs ↔ n = .fresh [] := by
+  rw [mem_reportGraph]
+  constructor
+  · rintro (h | h | ⟨i, _, h⟩ | ⟨x, hx, h⟩ | h)
+    · injection h
+    · have := congrArg RTriple.p h; dsimp only at this; exact absurd this (by decide)
+    · have := congrArg RTriple.p h; dsimp only at this; exact absurd this (by decide)
+    · exfalso
+      injection h with h1 h2 h3
+      rw [mem_resultsPending] at hx
+      obtain ⟨i, r, _, hx⟩ := hx
+      -- every prepared triple with predicate rdf:type says sh:ValidationResult
+      have key : ∀ (idx : List Nat) (r : Result), ∀ x ∈ resultPending dg idx r, x.p = rdfType → x.o.resolve = .term shValidationResult := by
+        intro idx r
+        refine resultPending.induct
+          (motive_1 := fun idx r => ∀ x ∈ resultPending dg idx r, x.p = rdfType → x.o.resolve = .term shValidationResult)
+          (motive_2 := fun idx j ds => ∀ x ∈ detailPending dg idx j ds, x.p = rdfType → x.o.resolve = .term shValidationResult)
+          ?_ ?_ ?_ idx r
+        · intro idx f v p c s sev msgs det src ih x hx hp
+          rw [resultPending_eq, List.mem_append] at hx
+          rcases hx with hx | hx
+          · rw [mem_ownPending] at hx
+            rcases hx with hx | hx | hx | hx | hx | ⟨t, _, hx⟩ | ⟨t, _, hx⟩ | ⟨t, _, hx⟩ | ⟨m, _, hx⟩ <;> subst hx
+            · rfl
+            all_goals (dsimp only at hp; exact absurd hp (by decide))
+          · exact ih x hx hp
+        · intro idx j x hx; simp [detailPending] at hx
+        · intro idx j d ds ih1 ih2 x hx hp
+          simp only [detailPending, List.mem_cons, List.mem_append] at hx
+          rcases hx with hx | hx | hx
+          · subst hx; dsimp only at hp; exact absurd hp (by decide)
+          · exact ih1 x hx hp
+          · exact ih2 x hx hp
+      have := key _ r x hx h2.symm
+      rw [← h3] at this
+      injection this with this
+      exact absurd this (by decide)
+    · exact absurd ⟨rfl, rfl⟩ (hc _ h)
+  · intro h; subst h; exact Or.inl rfl
+
+/-- the hypothesis of `single_report_node` follows from a condition on the validated graphs alone -/
+theorem no_report_type_in_clones (sg dg : Graph) (ps : List Pending)
+    (h : ∀ t ∈ sg ++ dg, ¬ (t.p = rdfType ∧ t.o = shValidationReport)) :
+    ∀ t ∈ clones sg dg ps, ¬ (t.p = rdfType ∧ t.o = .term shValidationReport) := by
+  intro t ht ⟨hp, ho⟩
+  unfold clones at ht
+  rw [List.mem_flatMap] at ht
+  obtain ⟨⟨⟨src, b⟩, k⟩, _, ht⟩ := ht
+  have horig := cloneBnode_origin _ _ _ _ _ _ t ht
+  unfold Origin at horig
+  rcases horig with (h1 | h1) | ⟨t', ht', hp', ho' | ⟨k, hk⟩⟩
+  · rw [hp] at h1; exact absurd h1 (by decide)
+  · rw [hp] at h1; exact absurd h1 (by decide)
+  · refine h t' ?_ ⟨hp'.trans hp, ?_⟩
+    · cases src <;> simp [srcGraph] at ht' <;> simp [ht']
+    · rw [ho] at ho'; injection ho' with ho'; exact ho'.symm
+  · rw [ho] at hk; injection hk
+
+/-- **every result node is well-formed**: a node typed sh:ValidationResult stands for one result `r` — nested
+    results below sh:detail included — and has exactly one sh:focusNode, sh:resultSeverity,
+    sh:sourceConstraintComponent and sh:sourceShape, at most one sh:value and sh:resultPath, each being the
+    corresponding term of `r`, and no other rdf:type -/
+theorem result_node_wellformed (sg dg : Graph) (conf : Bool) (rs : List Result) (idx : List Nat)
+    (h : (⟨.fresh idx, rdfType, .term shValidationResult⟩ : RTriple) ∈ reportGraph sg dg conf rs) :
+    ∃ r : Result,
+      (∀ o, (⟨.fresh idx, shFocusNode, o⟩ : RTriple) ∈ reportGraph sg dg conf rs ↔ o = .term r.focus) ∧
+      (∀ o, (⟨.fresh idx, shResultSeverity, o⟩ : RTriple) ∈ reportGraph sg dg conf rs ↔ o = .term r.severity) ∧
+      (∀ o, (⟨.fresh idx, shSourceConstraintComponent, o⟩ : RTriple) ∈ reportGraph sg dg conf rs ↔ o = .term r.component) ∧
+      (∀ o, (⟨.fresh idx, shSourceShape, o⟩ : RTriple) ∈ reportGraph sg dg conf rs ↔ o = .term r.shape) ∧
+      (∀ o, (⟨.fresh idx, shValue, o⟩ : RTriple) ∈ reportGraph sg dg conf rs ↔ ∃ t, r.value = some t ∧ o = .term t) ∧
+      (∀ o, (⟨.fresh idx, shResultPath, o⟩ : RTriple) ∈ reportGraph sg dg conf rs ↔ ∃ t, r.rpath = some t ∧ o = .term t) ∧
+      (∀ o, (⟨.fresh idx, rdfType, o⟩ : RTriple) ∈ reportGraph sg dg conf rs ↔ o = .term shValidationResult) := by
+  have hne : idx ≠ [] := by
+    intro he; subst he
+    rw [mem_reportGraph_root] at h
+    rcases h with ⟨_, h⟩ | ⟨h, _⟩ | ⟨h, _⟩
+    · injection h with h; exact absurd h (by decide)
+    · exact absurd h (by decide)
+    · exact absurd h (by decide)
+  rw [mem_reportGraph_fresh sg dg conf rs idx hne] at h
+  obtain ⟨x, hx, hs, _, _⟩ := h
+  obtain ⟨r, hr⟩ := top_node_stands_for dg rs idx ⟨x, hx, hs⟩
+  -- the triples about this node with a given predicate, read off the prepared triples of `r`
+  have key : ∀ (p : Term) (o : RNode), (⟨.fresh idx, p, o⟩ : RTriple) ∈ reportGraph sg dg conf rs ↔
+      ∃ y, NodeTriples dg idx r y ∧ y.p = p ∧ y.o.resolve = o := by
+    intro p o
+    rw [mem_reportGraph_fresh sg dg conf rs idx hne]
+    constructor
+    · rintro ⟨y, hy, h1, h2, h3⟩; exact ⟨y, (hr y).1 ⟨hy, h1⟩, h2, h3⟩
+    · rintro ⟨y, hy, h2, h3⟩; have := (hr y).2 hy; exact ⟨y, this.1, this.2, h2, h3⟩
+  refine ⟨r, ?_, ?_, ?_, ?_, ?_, ?_, ?_⟩
+  all_goals
+    intro o
+    rw [key]
+    unfold NodeTriples
+    simp only [mem_ownPending]
+    constructor
+    · rintro ⟨y, (hy | hy | hy | hy | hy | ⟨t, ht, hy⟩ | ⟨t, ht, hy⟩ | ⟨t, ht, hy⟩ | ⟨m, _, hy⟩) | ⟨j, d, _, hy⟩, hp, ho⟩ <;> subst hy
+      all_goals dsimp only [PObj.resolve, detailLink] at hp ho
+      all_goals first
+        | exact absurd hp (by decide)
+        | exact ho.symm
+        | exact ⟨_, ‹_›, ho.symm⟩
+  · intro ho; subst ho; exact ⟨_, Or.inl (Or.inr (Or.inr (Or.inr (Or.inr (Or.inl rfl))))), rfl, rfl⟩
+  · intro ho; subst ho; exact ⟨_, Or.inl (Or.inr (Or.inr (Or.inr (Or.inl rfl)))), rfl, rfl⟩
+  · intro ho; subst ho; exact ⟨_, Or.inl (Or.inr (Or.inl rfl)), rfl, rfl⟩
+  · intro ho; subst ho; exact ⟨_, Or.inl (Or.inr (Or.inr (Or.inl rfl))), rfl, rfl⟩
+  · rintro ⟨t, ht, ho⟩; subst ho
+    exact ⟨_, Or.inl (Or.inr (Or.inr (Or.inr (Or.inr (Or.inr (Or.inl ⟨t, ht, rfl⟩)))))), rfl, rfl⟩
+  · rintro ⟨t, ht, ho⟩; subst ho
+    exact ⟨_, Or.inl (Or.inr (Or.inr (Or.inr (Or.inr (Or.inr (Or.inr (Or.inl ⟨t, ht, rfl⟩))))))), rfl, rfl⟩
+  · intro ho; subst ho; exact ⟨_, Or.inl (Or.inl rfl), rfl, rfl⟩
+
+/-- the i-th `sh:result` link leads to a node that stands for the i-th result -/
+theorem top_result_node (sg dg : Graph) (conf : Bool) (rs : List Result) (i : Nat) (r : Result) (hi : rs[i]? = some r) :
+    (⟨.fresh [i], rdfType, .term shValidationResult⟩ : RTriple) ∈ reportGraph sg dg conf rs ∧
+    (⟨.fresh [i], shFocusNode, .term r.focus⟩ : RTriple) ∈ reportGraph sg dg conf rs ∧
+    (⟨.fresh [i], shResultSeverity, .term r.severity⟩ : RTriple) ∈ reportGraph sg dg conf rs := by
+  have own : ∀ y, y ∈ ownPending dg [i] r → (⟨y.s, y.p, y.o.resolve⟩ : RTriple) ∈ reportGraph sg dg conf rs := by
+    intro y hy
+    rw [mem_reportGraph]
+    exact Or.inr (Or.inr (Or.inr (Or.inl ⟨y, ((top_node_is dg rs i r hi y).2 (Or.inl hy)).1, rfl⟩)))
+  refine ⟨?_, ?_, ?_⟩
+  · exact own ⟨.fresh [i], rdfType, .direct shValidationResult⟩ ((mem_ownPending dg [i] r _).2 (Or.inl rfl))
+  · exact own ⟨.fresh [i], shFocusNode, .from (focusSrc dg) r.focus⟩
+      ((mem_ownPending dg [i] r _).2 (Or.inr (Or.inr (Or.inr (Or.inr (Or.inl rfl))))))
+  · exact own ⟨.fresh [i], shResultSeverity, .direct r.severity⟩
+      ((mem_ownPending dg [i] r _).2 (Or.inr (Or.inr (Or.inr (Or.inl rfl)))))
+
+/-- a blank focus node of a top-level result comes with a copy of its description: every triple about it in the
+    graph it was taken from (the data graph; the shapes graph when the data graph is empty) is in the report,
+    a blank-node object replaced by a freshly minted node (which carries its own copy, to the clone depth) -/
+theorem blank_focus_description_copied (sg dg : Graph) (conf : Bool) (rs : List Result) (i : Nat) (r : Result)
+    (hi : rs[i]? = some r) (b : String) (hf : r.focus = .bnode b)
+    (hl : isListNode (srcGraph sg dg (focusSrc dg)) (.bnode b) = false)
+    (p o : Term) (h : (⟨.bnode b, p, o⟩ : Triple) ∈ srcGraph sg dg (focusSrc dg)) :
+    (o.isBnode = false → (⟨.term (.bnode b), p, .term o⟩ : RTriple) ∈ reportGraph sg dg conf rs) ∧
+    (o.isBnode = true → ∃ k, (⟨.term (.bnode b), p, .cl k⟩ : RTriple) ∈ reportGraph sg dg conf rs) := by
+  have hk : (focusSrc dg, Term.bnode b) ∈ cloneKeys (resultsPending dg 0 rs) := by
+    rw [mem_cloneKeys]
+    refine ⟨⟨.fresh [i], shFocusNode, .from (focusSrc dg) r.focus⟩, ?_, by rw [hf]⟩
+    exact ((top_node_is dg rs i r hi _).2 (Or.inl ((mem_ownPending dg [i] r _).2
+      (Or.inr (Or.inr (Or.inr (Or.inr (Or.inl rfl)))))))).1
+  have := clones_copy sg dg _ _ b hk hl p o h
+  constructor
+  · intro hb; rw [mem_reportGraph]; exact Or.inr (Or.inr (Or.inr (Or.inr (this.1 hb))))
+  · intro hb; obtain ⟨k, hk⟩ := this.2 hb
+    exact ⟨k, by rw [mem_reportGraph]; exact Or.inr (Or.inr (Or.inr (Or.inr hk)))⟩
+
+/-- the same for every blank node the assembly resolves — value nodes (from the data graph), source shapes,
+    result paths and source constraints (from the shapes graph), of top-level and nested results alike -/
+theorem blank_node_description_copied (sg dg : Graph) (conf : Bool) (rs : List Result) (src : Src) (b : String)
+    (x : Pending) (hx : x ∈ resultsPending dg 0 rs) (hxo : x.o = .from src (.bnode b))
+    (hl : isListNode (srcGraph sg dg src) (.bnode b) = false)
+    (p o : Term) (h : (⟨.bnode b, p, o⟩ : Triple) ∈ srcGraph sg dg src) :
+    (o.isBnode = false → (⟨.term (.bnode b), p, .term o⟩ : RTriple) ∈ reportGraph sg dg conf rs) ∧
+    (o.isBnode = true → ∃ k, (⟨.term (.bnode b), p, .cl k⟩ : RTriple) ∈ reportGraph sg dg conf rs) := by
+  have hk : (src, Term.bnode b) ∈ cloneKeys (resultsPending dg 0 rs) := (mem_cloneKeys _ _ _).2 ⟨x, hx, hxo⟩
+  have := clones_copy sg dg _ _ b hk hl p o h
+  constructor
+  · intro hb; rw [mem_reportGraph]; exact Or.inr (Or.inr (Or.inr (Or.inr (this.1 hb))))
+  · intro hb; obtain ⟨k, hk⟩ := this.2 hb
+    exact ⟨k, by rw [mem_reportGraph]; exact Or.inr (Or.inr (Or.inr (Or.inr hk)))⟩
+
+/-- every statement other than rdf:first / rdf:rest about a resolved blank node is copied — list node or not -/
+theorem blank_node_statements_copied (sg dg : Graph) (conf : Bool) (rs : List Result) (src : Src) (b : String)
+    (x : Pending) (hx : x ∈ resultsPending dg 0 rs) (hxo : x.o = .from src (.bnode b))
+    (p o : Term) (h : (⟨.bnode b, p, o⟩ : Triple) ∈ srcGraph sg dg src) (hp1 : p ≠ rdfFirst) (hp2 : p ≠ rdfRest) :
+    (o.isBnode = false → (⟨.term (.bnode b), p, .term o⟩ : RTriple) ∈ reportGraph sg dg conf rs) ∧
+    (o.isBnode = true → ∃ k, (⟨.term (.bnode b), p, .cl k⟩ : RTriple) ∈ reportGraph sg dg conf rs) := by
+  have hk : (src, Term.bnode b) ∈ cloneKeys (resultsPending dg 0 rs) := (mem_cloneKeys _ _ _).2 ⟨x, hx, hxo⟩
+  have := clones_copy_statements sg dg _ _ b hk p o h hp1 hp2
+  constructor
+  · intro hb; rw [mem_reportGraph]; exact Or.inr (Or.inr (Or.inr (Or.inr (this.1 hb))))
+  · intro hb; obtain ⟨k, hk⟩ := this.2 hb
+    exact ⟨k, by rw [mem_reportGraph]; exact Or.inr (Or.inr (Or.inr (Or.inr hk)))⟩
+
 /-! non-vacuity: a concrete run with one Warning result, waived or not -/
 def exN (s : String) : Term := .iri ("http://ex.test/" ++ s)
 def sgEx : Graph :=
@@ -42,5 +279,17 @@ def sgEx : Graph :=
    ⟨exN "S", shSeverity, shWarning⟩]
 example : (runValidate {} sgEx [] (fun _ _ _ => none) [] []).toOption.map (fun p => (p.1, p.2.length)) = some (false, 1) := by decide
 example : (runValidate { allowWarnings := true } sgEx [] (fun _ _ _ => none) [] []).toOption.map (fun p => (p.1, p.2.length)) = some (true, 1) := by decide
+
+/-! non-vacuity for the report assembly: a blank focus node with a description, one nested result -/
+def dEx : Result := .mk (exN "v") none none (sh "ClassConstraintComponent") (exN "T") shWarning [] [] none
+def rEx : Result := .mk (.bnode "b0") (some (exN "v")) none (sh "NodeConstraintComponent") (exN "S") shWarning [] [dEx] none
+def dgEx : Graph := [⟨.bnode "b0", exN "p", exN "v"⟩, ⟨.bnode "b0", exN "q", .bnode "b1"⟩, ⟨.bnode "b1", exN "p", exN "w"⟩]
+example : (⟨.fresh [0], rdfType, .term shValidationResult⟩ : RTriple) ∈ reportGraph sgEx dgEx false [rEx] := by decide
+example : (⟨.fresh [0, 0], rdfType, .term shValidationResult⟩ : RTriple) ∈ reportGraph sgEx dgEx false [rEx] := by decide
+example : (⟨.fresh [0], shDetail, .fresh [0, 0]⟩ : RTriple) ∈ reportGraph sgEx dgEx false [rEx] := by decide
+example : (⟨.term (.bnode "b0"), exN "p", .term (exN "v")⟩ : RTriple) ∈ reportGraph sgEx dgEx false [rEx] := by decide
+example : (reportGraph sgEx dgEx false [rEx]).length = 18 := by decide
+example : isListNode dgEx (.bnode "b0") = false := by decide
+example : ∀ t ∈ sgEx ++ dgEx, ¬ (t.p = rdfType ∧ t.o = shValidationReport) := by decide
 
 end Pyshacl.C06
